@@ -70,7 +70,7 @@ def gen_case(rng, tier):
     }
     nver = rng.choice([2, 2, 3, 4])
     big = rng.random() < 0.03
-    contents = [gen.gen_many_rows(rng) if big else gen.gen_fasta(rng)]
+    contents = [(gen.gen_many_records(rng) if rng.random() < 0.35 else gen.gen_many_rows(rng)) if big else gen.gen_fasta(rng)]
     if big:
         # scale outlier: keep the event count of one load small
         knobs.update({"io_buf": rng.choice([4096, 8192]), "text_chunk": 8192, "read_buf": 4096,
